@@ -72,6 +72,11 @@ def operand(txt):
         if m.group(2) not in GPR:
             raise core.Infra("asm: memory base %s is not a general register" % m.group(2))
         return dict(k="m", r=m.group(2), v=int(m.group(1) or 0))
+    m = re.match(r"^(-?\d+)?\((\w+)\)\((\w+)\*([1248])\)$", t)      # disp(BASE)(INDEX*SCALE)
+    if m:
+        if m.group(2) not in GPR or m.group(3) not in GPR:
+            raise core.Infra("asm: memory base/index %s/%s is not a general register" % (m.group(2), m.group(3)))
+        return dict(k="m", r=m.group(2), v=int(m.group(1) or 0), x=m.group(3), sc=int(m.group(4)))
     m = re.match(r"^([XYZ])(\d+)$", t)
     if m:
         return dict(k="v", r="V" + m.group(2), v={"X": 16, "Y": 32, "Z": 64}[m.group(1)])
@@ -190,6 +195,9 @@ def a64_operand(t):
     m = re.match(r"^(-?\d+)?\((R\d+)\)$", t)
     if m:
         return dict(k="m", r=m.group(2), v=int(m.group(1) or 0))
+    m = re.match(r"^\((R\d+)\)\((R\d+)(?:<<([0-4]))?\)$", t)                  # (Rbase)(Rindex<<shift)
+    if m:
+        return dict(k="m", r=m.group(1), v=0, x=m.group(2), sc=1 << int(m.group(3) or 0))
     m = re.match(r"^V(\d+)\.([BHSDQ])(\d+)$", t)
     if m:
         return dict(k="v", r="V" + m.group(1), v=LANE_BYTES[m.group(2)] * int(m.group(3)))
@@ -358,7 +366,7 @@ def globl_sizes(paths):
 
 
 def tla_operand(o):
-    return '[k |-> "%s", r |-> "%s", v |-> %d]' % (o["k"], o["r"], o["v"])
+    return '[k |-> "%s", r |-> "%s", v |-> %d, x |-> "%s", sc |-> %d]' % (o["k"], o["r"], o["v"], o.get("x", ""), o.get("sc", 0))
 
 
 def tla_prog(prog):
